@@ -20,7 +20,7 @@ sys.path.insert(0, os.path.join(VERIF, "tools"))
 from mutants import MUTANTS  # noqa: E402
 
 GOENV = dict(GOFLAGS="-mod=mod", GOPROXY="off", GOSUMDB="off", GOTOOLCHAIN="local")
-ROOT = "/tmp/vmut"
+ROOT = os.environ.get("VERIF_MUT_ROOT", "/tmp/vmut")
 
 
 def sh(cmd, **kw):
